@@ -1,5 +1,5 @@
 (* Glue/C09_glue.v — entry point of the extracted runner for C09.
-   run (VL [VN 1; sess; call]) -> VL [VL events; outcome]
+   run (VL [VN 1; sess; call]) -> VL [VL events; outcome; VL wire]   wire = codes of Gating.wire_of (constructor order) when sent, else []
      sess    : VL [VN 0; VL [VB uri...]] (connected, server capabilities) | VL [VN 1] (no attribute)
      optexn  : VL [] | VL [VN code]          code: see exn_code
      optstr  : VL [] | VL [VB s]
@@ -10,7 +10,8 @@
      event   : VL [VN 0; VB k] assert | VL [VN 1; VB k] lookup | VL [VN 2] register | VL [VN 3] send
      outcome : VL [VN 0] sent | VL [VN 1; VN code]
    run (VL [VN 2; VB s]) -> xml_chars_ok s
-   run (VL [VN 3; sess; vcall]) -> VL [VL events; outcome]      (Model/VendorGating.vperform)
+   run (VL [VN 3; sess; vcall]) -> VL [VL events; outcome; VL wire]      (Model/VendorGating.vperform, vwire_of)
+     commit  : VL [VN 6; vendor; confirmed; tmo; per; pid; optexn pre; optexn post]
      vcall   : VL [VN 0; VB fmt; dsarg; VL [] | VL [optexn]; optexn]   alu load_configuration
              | VL [VN 1; optexn]                                       alu get_configuration
              | VL [VN 2; dsarg; optexn]                                h3c get_bulk_config
@@ -83,9 +84,10 @@ Definition d_call (v : val) : option call :=
   | VL [VN 3; t] => do t' <- d_ds t; Some (CDeleteConfig t')
   | VL [VN 4; t; s] => do t' <- d_ds t; do s' <- d_src s; Some (CCopyConfig t' s')
   | VL [VN 5; s] => do s' <- d_src s; Some (CValidate s')
-  | VL [VN 6; vd; cf; pre; post] =>
-      do vd' <- d_vendor vd; do cf' <- d_bool cf; do pre' <- d_optexn pre; do post' <- d_optexn post;
-      Some (CCommit vd' cf' pre' post')
+  | VL [VN 6; vd; cf; tmo; per; pid; pre; post] =>
+      do vd' <- d_vendor vd; do cf' <- d_bool cf; do tmo' <- d_bool tmo; do per' <- d_bool per; do pid' <- d_bool pid;
+      do pre' <- d_optexn pre; do post' <- d_optexn post;
+      Some (CCommit vd' cf' tmo' per' pid' pre' post')
   | VL [VN 7; b] => do b' <- d_optexn b; Some (CCancelCommit b')
   | VL [VN 8] => Some CDiscardChanges
   | VL [VN 9; b] => do b' <- d_optexn b; Some (CCreateSubscription b')
@@ -129,17 +131,26 @@ Definition e_event (e : event) : val :=
 Definition e_outcome (o : outcome) : val :=
   match o with Sent => VL [VN 0] | Exn e => VL [VN 1; VN (exn_code e)] end.
 
+Definition wire_code (w : wire) : N :=
+  match w with
+  | WCommit => 0 | WConfirmed => 1 | WConfirmTimeout => 2 | WPersist => 3 | WPersistId => 4 | WCancelCommit => 5
+  | WDiscardChanges => 6 | WValidate => 7 | WTestOption => 8 | WTestOnly => 9 | WRollbackOnError => 10 | WUrl => 11
+  | WWithDefaults => 12 | WCreateSubscription => 13
+  end.
+Definition e_wire (o : outcome) (ws : list wire) : val :=
+  match o with Sent => VL (map (fun w => VN (wire_code w)) ws) | Exn _ => VL [] end.
+
 Definition run (v : val) : val :=
   match v with
   | VL [VN 1; s; c] =>
       match d_sess s, d_call c with
-      | Some s', Some c' => let (tr, o) := perform s' c' in VL [VL (map e_event tr); e_outcome o]
+      | Some s', Some c' => let (tr, o) := perform s' c' in VL [VL (map e_event tr); e_outcome o; e_wire o (wire_of c')]
       | _, _ => verr 1
       end
   | VL [VN 2; VB s] => vbool (xml_chars_ok s)
   | VL [VN 3; s; c] =>
       match d_sess s, d_vcall c with
-      | Some s', Some c' => let (tr, o) := vperform s' c' in VL [VL (map e_event tr); e_outcome o]
+      | Some s', Some c' => let (tr, o) := vperform s' c' in VL [VL (map e_event tr); e_outcome o; e_wire o (vwire_of c')]
       | _, _ => verr 1
       end
   | _ => verr 1
